@@ -8,14 +8,18 @@ Reasons(e) ==
   LET s == e.scn
       want == IF C!SetupOK(s) THEN C!LeadingOK(s) ELSE 0
       allOK == C!SetupOK(s) /\ want = Len(s.inputs)
-      \* the .pem/.der suffix override is behaviour the property does not promise: scenarios whose outcome hinges on it are fidelity only
-      dep == \E j \in 1..Len(s.inputs) : s.chan = "file" /\ s.inputs[j].suffix # "none" /\ s.inputs[j].suffix # s.fmt
-      G(x) == IF dep THEN "fid-suffix-" \o x ELSE x IN
-   (IF allOK /\ e.exitObs # 0 THEN {G("valid-input-rejected")} ELSE {}) \cup
-   (IF ~allOK /\ e.exitObs = 0 THEN {G("exit-zero-on-failure")} ELSE {}) \cup
-   (IF e.printedObs > want THEN {G("result-printed-for-failing-input")} ELSE {}) \cup
-   (IF e.printedObs < want THEN {G("result-missing")} ELSE {}) \cup
-   (IF e.printedObs > 0 /\ ~e.match THEN {G("output-differs-from-library")} ELSE {}) \cup
+      \* the .pem/.der suffix override is behaviour the property does not promise: a judgement is fidelity only when the input
+      \* it hinges on (the first input that was not printed / the first bad input that was) is itself read under an
+      \* overriding suffix.  An input without such a suffix must be treated by -format alone, whatever the other inputs are called.
+      Over(it) == s.chan = "file" /\ it.suffix # "none" /\ it.suffix # s.fmt
+      hMiss == IF e.printedObs < Len(s.inputs) THEN Over(s.inputs[e.printedObs + 1]) ELSE FALSE
+      hBad == IF C!SetupOK(s) /\ want < Len(s.inputs) THEN Over(s.inputs[want + 1]) ELSE FALSE
+      G(dep, x) == IF dep THEN "fid-suffix-" \o x ELSE x IN
+   (IF allOK /\ e.exitObs # 0 THEN {G(hMiss, "valid-input-rejected")} ELSE {}) \cup
+   (IF ~allOK /\ e.exitObs = 0 THEN {G(hBad, "exit-zero-on-failure")} ELSE {}) \cup
+   (IF e.printedObs > want THEN {G(hBad, "result-printed-for-failing-input")} ELSE {}) \cup
+   (IF e.printedObs < want THEN {G(hMiss, "result-missing")} ELSE {}) \cup
+   (IF e.printedObs > 0 /\ ~e.match THEN {"output-differs-from-library"} ELSE {}) \cup
    (IF e.junk THEN {"fid-unparsable-stdout"} ELSE {})
 TraceInit == l = 1 /\ nrej = 0
 Step == /\ l <= Len(Trace)
